@@ -105,6 +105,8 @@ class C11(Prop):
             else:
                 c['weights'] = []
         if rng.random() < 0.3:
+            c['two_sided'] = rng.choice(['normal', 'crossed'])      # the real BacktestDataHandler over a source with bid != ask
+        if rng.random() < 0.3:
             ws = [[a, abs(w) if False else w] for a, w in c['weights']]
             c['warmup_calls'] = [ws + [['EQ:WARM1', 0.5], ['EQ:WARM2', -0.25]], [['EQ:WARM2', 1.0]]][:rng.randint(1, 2)]
         return c
